@@ -185,10 +185,24 @@ def gen_and_small(tier):
     for kind in ("and", "lf"):
         for sizes in ([0], [0, 0]):
             yield and_case(kind, [], sizes, 0)
-    # the same operand pair repeated without any outer rank (as in test_intersector): per fiber only
+    # the same operand pair repeated by a plain Python loop, without any outer rank (as in
+    # test_intersector): stamps and points restart identically in every pass.  Fed pass by pass all
+    # models apply; consumed in one shot / mixed the passes cannot be told apart from the trace and
+    # only the leader-follower counts are specified (every use must still be recorded)
     for a in s2:
         for b in s2:
             yield and_case("and", [(leaf(a), leaf(b))] * 3, [1, 1, 1], 0)
+            for sizes in ([3], [2, 1], [0, 1, 2]):
+                yield and_case("and", [(leaf(a), leaf(b))] * 3, sizes, 0, variant=["passes-without-outer-rank"])
+            yield and_case("and", [(leaf(a), leaf(b)), (leaf(b), leaf(a)), (leaf(a), leaf(b)), (leaf(a), leaf(b))],
+                           [4], 0, variant=["passes-without-outer-rank"])
+            yield and_case("lf", [(leaf(a), leaf(b))] * 3, [3], 0, variant=["passes-without-outer-rank"])
+    # operands carrying different rank ids (the traces are declared under the first operand's rank)
+    for i, x in enumerate(p2):
+        y = p2[(11 * i + 5) % len(p2)]
+        for sizes in ([1, 1], [2]):
+            yield and_case("and", [x, y], sizes, 1, variant=["rank-ids-differ"])
+        yield and_case("and", [x], [1], 0, variant=["rank-ids-differ", "intersection-two-finger"])
     # leader-follower intersection
     for x in p2:
         yield and_case("lf", [x], [1], 0)
@@ -314,7 +328,7 @@ def gen_and_random(rng, count):
     for i in range(count):
         kind = "lf" if i % 8 == 7 else "and"
         k = rng.choice([1, 2, 2, 3, 3, 4, 5])
-        nout = rng.choice([1, 1, 2, 3]) if k > 1 else rng.choice([0, 1, 2, 3])
+        nout = rng.choice([1, 1, 2, 3, 0]) if k > 1 else rng.choice([0, 1, 2, 3])
         dflt = rng.choice([0, 0, 7])
         n = rng.choice([3, 5, 8, 12])
         nmax = n
@@ -347,6 +361,8 @@ def gen_and_random(rng, count):
             variant.append("coords-multidigit")
         if kind == "and" and rng.random() < 0.15:
             variant.append(rng.choice(["prebuilt", "intersection-two-finger"]))
+        if kind == "and" and rng.random() < 0.08:
+            variant.append("rank-ids-differ")
         if rng.random() < 0.08 and vals == "int" and m is None and "format-U" not in variant:
             # operand identity in the random stream: the second operand IS the first one
             pairs = [(pa, pa) if rng.random() < 0.5 and isinstance(pa, list) else (pa, pb) for pa, pb in pairs]
@@ -672,7 +688,10 @@ def run_and(case):
                 a = _leaf_fiber(pairs[idx][0], dflt, vals, active_range=(w[0], w[1]))
             else:
                 a = build_operand(pairs[idx][0], dflt, vals, ow, sh)
-            built[key] = (a, build_operand(pairs[idx][1], dflt, vals, ow, sh))
+            b = build_operand(pairs[idx][1], dflt, vals, ow, sh)
+            if "rank-ids-differ" in variant and b is not a and not ow:
+                b.getRankAttrs().setId("KB")
+            built[key] = (a, b)
         return built[key]
 
     results = {}
